@@ -66,7 +66,7 @@ def all_dags(n):
 
 def fcell(i):
     return {"name": "f", "params": [], "expr": ["bin", "+", ["bin", "*", ["name", "r"], ["lit", 100]], ["lit", i]],
-            "cached": True, "allow_none": None, "form": "lambda" if i % 2 else "def", "tick": False}
+            "cached": i % 3 != 1, "allow_none": None, "form": "lambda" if i % 2 else "def", "tick": False}
 
 
 def config_ops(dag, fdef, rdef, order):
@@ -189,7 +189,7 @@ def enumerate_cases(tier, seed):
 # ----------------------------------------------------------------------------
 # histories
 
-FEAT = gen.Feat(inherit=True, attrpaths=True, max_top=4, max_child=1, max_cells=3, max_rank=3, depth=2,
+FEAT = gen.Feat(inherit=True, attrpaths=True, uncached=True, uncached_p=3, max_top=4, max_child=1, max_cells=3, max_rank=3, depth=2,
                 tick=False, recursion=False)
 
 
